@@ -176,15 +176,9 @@ func runC07(c *Ctx) {
 	// R07.3
 	var emit *ssa.Function
 	isEmit := func(in ssa.Instruction) bool {
-		f := staticCallee(in)
-		if f == nil || funcPkgPath(f) != pkgPath("json") || f == fn {
-			return false
-		}
-		for _, par := range f.Params {
-			if isIOWriter(par.Type()) {
-				emit = f
-				return true
-			}
+		if f := emitCallee(in, pkgPath("json"), fn); f != nil {
+			emit = f
+			return true
 		}
 		return false
 	}
